@@ -107,29 +107,38 @@ def disk_to_disk(center1, radius1, normal1, center2, radius2, normal2, epsilon=1
     # Plücker coordinates of intersection line
     line_direction, line_moment = plane_intersects_plane(center1, normal1, center2, normal2)
 
+    planes_are_parallel = np.dot(line_direction, line_direction) < epsilon
+
     # Special case: disks lie in the same plane
-    if (np.dot(line_direction, line_direction) < epsilon
-            and np.dot(line_moment, line_moment) < epsilon):
+    if planes_are_parallel and np.dot(line_moment, line_moment) < epsilon:
+        center_distance = np.linalg.norm(center2 - center1)
         direction_disk1_to_disk2 = norm_vector(center2 - center1)
+        if center_distance <= radius1 + radius2:
+            # The disks overlap: any point of disk 1 on the segment between
+            # the centers that is close enough to center 2 is a common point.
+            common_point = center1 + max(
+                0.0, center_distance - radius2) * direction_disk1_to_disk2
+            return 0.0, common_point, common_point
         closest_point_1 = center1 + radius1 * direction_disk1_to_disk2
         closest_point_2 = center2 - radius2 * direction_disk1_to_disk2
         return (np.linalg.norm(closest_point_2 - closest_point_1),
                 closest_point_1, closest_point_2)
 
-    line_point, line_direction = line_from_pluecker(line_direction, line_moment)
-    h1, p1 = point_to_line(center1, line_point, line_direction)
-    h2, p2 = point_to_line(center2, line_point, line_direction)
-    ell = np.linalg.norm(p2 - p1)
-    h = h1 + h2
-    if abs(h) > epsilon:
-        t1 = h1 * ell / h
-        closest_to_both_disks = p1 - line_direction * t1
-        if (np.linalg.norm(closest_to_both_disks - center1) < radius1
-                and np.linalg.norm(closest_to_both_disks - center2) < radius2):
-            return 0.0, closest_to_both_disks, closest_to_both_disks
-    elif ell <= radius1 + radius2:  # both centers are on the common line
-        closest = 0.5 * (center1 + center2)
-        return 0.0, closest, closest
+    if not planes_are_parallel:  # parallel planes do not intersect
+        line_point, line_direction = line_from_pluecker(line_direction, line_moment)
+        h1, p1 = point_to_line(center1, line_point, line_direction)
+        h2, p2 = point_to_line(center2, line_point, line_direction)
+        ell = np.linalg.norm(p2 - p1)
+        h = h1 + h2
+        if abs(h) > epsilon:
+            t1 = h1 * ell / h
+            closest_to_both_disks = p1 - line_direction * t1
+            if (np.linalg.norm(closest_to_both_disks - center1) < radius1
+                    and np.linalg.norm(closest_to_both_disks - center2) < radius2):
+                return 0.0, closest_to_both_disks, closest_to_both_disks
+        elif ell <= radius1 + radius2:  # both centers are on the common line
+            closest = 0.5 * (center1 + center2)
+            return 0.0, closest, closest
 
     # (2) no contact: simple iterative procedure
     # better solution: https://www.sciencedirect.com/science/article/pii/S0307904X0200080X
